@@ -297,10 +297,9 @@ def rItem (it : Item) (last : Bool) : R :=
   | .exception s => rLit cs!"exception" +> rB1 +> rStructLike s last
   | .service s => rService s last
 
-/-- the document: `[blank] (item [separator] blank)*`.  (An empty document renders as the empty
-text: `File::parse` rejects a text that consists of blanks only — finding DI1.) -/
-def rFile (f : File) : R :=
-  if f.items.isEmpty then rLit [] else rB0 +> rSlots rItem f.items
+/-- the document: `[blank] (item [separator] blank)*`.  (For an empty declaration list this is a
+blank only; `File::parse` rejects such a text unless it is empty — finding DI1.) -/
+def rFile (f : File) : R := rB0 +> rSlots rItem f.items
 
 def render (l : Layout) (f : File) : List Char := (rFile f l).1
 
